@@ -44,6 +44,7 @@ func checkCli(c CliCase) error {
 	}
 	var args []string
 	files := map[string]string{}
+	ogNames := c.Names // the names the command is given (the tip file may hold further, absent, names)
 	for _, n := range c.Names {
 		if c.Cmd == "outgroup-args" && strings.HasPrefix(n, "-") {
 			c.Cmd = "outgroup-file" // a name like "-0" cannot be typed as a bare argument
@@ -59,7 +60,20 @@ func checkCli(c CliCase) error {
 			args = append(args, "--strict")
 		}
 		if c.Cmd == "outgroup-file" {
-			files["og.txt"] = strings.Join(c.Names, "\n") + "\n"
+			// the tip file one name per line, comma-separated on one line, as one long line in which
+			// names that are in no tree push a drawn name across byte 4096 / 8192 of the file, or as one
+			// line of exactly that length without end of line (chosen from the names: replays identically)
+			hsh := 0
+			for _, n := range c.Names {
+				hsh = hsh*31 + len(n) + int(n[len(n)-1])
+			}
+			layout := []string{"lines", "lines", "commas", "long", "exact", "long"}[hsh%6]
+			og := cli.TipFile(c.Names, layout, 4096*(1+hsh/6%2), hsh/12)
+			files["og.txt"] = og
+			ogNames = nil
+			for _, n := range strings.FieldsFunc(og, func(r rune) bool { return r == ',' || r == '\n' }) {
+				ogNames = append(ogNames, n)
+			}
 			args = append(args, "-l", "og.txt")
 		} else {
 			args = append(args, c.Names...)
@@ -84,7 +98,7 @@ func checkCli(c CliCase) error {
 			switch c.Cmd {
 			case "outgroup-args", "outgroup-file":
 				// a fresh list per tree: the oracle must not inherit what an earlier call did to its arguments
-				err = t.RerootOutGroup(c.Remove, c.Strict, append([]string(nil), c.Names...)...)
+				err = t.RerootOutGroup(c.Remove, c.Strict, append([]string(nil), ogNames...)...)
 			case "midpoint":
 				err = t.RerootMidPoint()
 			case "unroot":
@@ -111,7 +125,7 @@ func checkCli(c CliCase) error {
 func TestC05Cli(t *testing.T) {
 	h.Run(t, h.Spec[CliCase]{
 		Property: "C05", Name: "cli", Quick: 1600, Thorough: 32000,
-		Rule: "`gotree reroot outgroup` (tips as arguments or -l file, -r, --strict; clade, non-clade and absent names), `reroot midpoint`, `unroot`, `rotate sort`, `rotate rand --seed` on generated trees: the printed tree must be byte-identical to what the library call gives (or both report an error); the library calls themselves are judged by the other checks of C05; the input comes on stdin, as a file, as a gzip file or as a Nexus document (--format nexus, with or without translate table); half of the inputs are streams of 2-3 trees of different sizes and tip sets (every tree must be treated like a single one); non-trivial = multifurcating or rooted input",
+		Rule: "`gotree reroot outgroup` (tips as arguments or -l file (one name per line, comma-separated, one long line in which a name straddles byte 4096 / 8192, one line of exactly that length without end of line), -r, --strict; clade, non-clade and absent names), `reroot midpoint`, `unroot`, `rotate sort`, `rotate rand --seed` on generated trees: the printed tree must be byte-identical to what the library call gives (or both report an error); the library calls themselves are judged by the other checks of C05; the input comes on stdin, as a file, as a gzip file or as a Nexus document (--format nexus, with or without translate table); half of the inputs are streams of 2-3 trees of different sizes and tip sets (every tree must be treated like a single one); non-trivial = multifurcating or rooted input",
 		Gen: func(t *rapid.T, thorough bool) CliCase {
 			o := gen.Opts{MinTips: 3, MaxTips: 12, Rooted: -1, MaxDeg: 5, Lens: gen.AnyPresence, LenVals: gen.DyadicZ, Sups: gen.AnyPresence}
 			m := gen.Tree(t, o)
